@@ -4,8 +4,11 @@ import json, glob, os, sys
 root = os.path.dirname(os.path.dirname(os.path.abspath(__file__)))
 base = json.load(open(os.path.join(root, "manifest.d", "_base.json")))
 checks = []
+enabled = set(open(os.path.join(root, "manifest.d", "_enabled.txt")).read().split())
 for p in sorted(glob.glob(os.path.join(root, "manifest.d", "C*.json"))):
-    checks.append(json.load(open(p)))
+    c = json.load(open(p))
+    if c["property_id"] in enabled:   # fragments of checks still under construction are not registered
+        checks.append(c)
 base["checks"] = checks
 claimed = {c["property_id"] for c in checks}
 props = [json.loads(l)["id"] for l in open(os.path.join(root, "properties.jsonl"))]
